@@ -338,6 +338,7 @@ def compare(ctx: core.Ctx, cases: list[dict], drv: core.Driver, label="corr"):
         res[i] = run_impl_safe(cases[i])
     mres = drv.pbatch(reqs)
     problems = []
+    sql_items = []  # small standalone cases on which the regenerated SQL is evaluated by Rel.eval (translation validation)
     for c, order, r, m in zip(cases, orders, res, mres):
         n = len(c["ids"])
         comps = oracle_clusters(c)
@@ -375,6 +376,7 @@ def compare(ctx: core.Ctx, cases: list[dict], drv: core.Driver, label="corr"):
         if fragile:
             ctx.count("excluded", "weight threshold within 1e-12 of an edge probability / SQLite misreads the threshold literal")
             continue
+        sql_items.append((c, order, r, oracle_threshold(c)))
         if mrows != r["rows"]:
             problems.append((c, "cluster table differs from Lean model CC.cluster (real output still satisfies the property)", False, r))
             continue
@@ -382,6 +384,9 @@ def compare(ctx: core.Ctx, cases: list[dict], drv: core.Driver, label="corr"):
             problems.append((c, f"per-iteration needs_updating counts differ from Lean model CC.trace: impl {r['trace'][:12]} model {m['trace'][:12]}", False, r))
             continue
         ctx.traces_validated += 1
+    from harness.props import c05_sql
+
+    problems += c05_sql.validate(ctx, sql_items, drv)
     return problems
 
 
@@ -442,10 +447,13 @@ def run(ctx: core.Ctx):
     from harness.translate import tarith
 
     errs = tarith.write({"threshold_args_to_match_prob", "bayes_factor_to_prob", "match_weight_to_bayes_factor"})  # Generated/Arith.lean: the model's threshold conversion is the translated threshold_args_to_match_prob
+    from harness.props import c05_sql
+
+    sql_errs = c05_sql.prepare()  # Generated/CCSql.lean: the SQL solve_connected_components emits now, as Rel terms (T-sql); Properties/C05Sql.lean is re-checked against it
     ctx.lean = core.lean_check(PROP, ctx.thorough)
-    if errs:
+    if errs or sql_errs:
         ctx.lean.ok = False
-        ctx.lean.problems += ["T-arith: " + e for e in errs]
+        ctx.lean.problems += ["T-arith: " + e for e in errs] + ["T-sql: " + e for e in sql_errs]
     drv = core.Driver()
     if ctx.replay:
         import json
